@@ -2,7 +2,7 @@
 Exhaustive Z x group macros; members are decided from the *names*, their energies/rates come from the public single-line accessors."""
 import re
 import common, xrl
-from common import Stats
+from common import Stats, mix
 
 TOL = 1e-13
 DOUBLETS = ["L1N67", "L1O45", "L1P23", "L2P23", "L3O45", "L3P23", "L3P45"]
@@ -117,6 +117,7 @@ def run(ctx):
     b = ctx.build("plain", "A")
     env = Env(b["lib"], b["src"])
     st = ctx.stats
+    env.L.shadow_start(mix(ctx.seed, "c10-shadow") % (2**31), cap=200000)     # every query of this run is asked again at the end (lib/xrl.py)
     # aliases (header level)
     for a, target in SIEGBAHN.items():
         st.ev()
@@ -140,6 +141,7 @@ def run(ctx):
                     kind = "value" if exp is not None else "noerror"
                     st.violation("%s:%s:%s" % (kind, what, g), case, expected=exp if exp is not None else "error and 0.0",
                                  got=dict(value=got, error=err))
+    env.L.shadow_check(st)
     ctx.assumptions = ["member energies/rates of single lines are correct (C01)", "CS_FluorLine weights for L-beta are correct (C09)",
                        "the RadRate of LB_LINE is not specified by the property and is not judged"]
 
